@@ -38,7 +38,7 @@ sequences | `Option` | tuples / structs | enums.  Because types may be recursive
 
 Allocations are modelled by identities: the decoder-side interner is a list of slots, the slot index
 is the identity of the `Arc` allocation; a decoded value `DVal` carries the slot of every handle.
-Handles produced by a running decode stay alive until the top-level call returns: since /repo commit F61COMMIT the decode
+Handles produced by a running decode stay alive until the top-level call returns: since /repo commit 8f43b2a the decode
 session holds a clone of each (`keep = true`, the default everywhere); `keep = false` is the decoder before that
 commit, where the allocations made while reading a payload died when `intern` returned an equal live value and
 dropped the payload (finding F61).
@@ -232,7 +232,7 @@ def NErr.of : Err → NErr
 abbrev DR (α : Type) := Except NErr (α × Bytes × NInterner)
 
 mutual
-  /-- `Decode::decode(decoder, plugin, session)`.  `keep = true` is the code as it is since /repo commit F61COMMIT
+  /-- `Decode::decode(decoder, plugin, session)`.  `keep = true` is the code as it is since /repo commit 8f43b2a
       (finding F61 repaired: `DecodedInterned` in the decode session keeps every produced handle alive until the
       top-level call returns); `keep = false` is the decoder before it, kept as a historical witness. -/
   def dec (keep : Bool) (env : Nat → NTy) (hash : Nat → NVal → Nat) : Nat → NTy → Bytes → NInterner → DR DVal
@@ -254,7 +254,7 @@ mutual
             let k := (tid, hash tid p.erase)
             match I1.find k with
             | some (slot, p') =>
-              -- the decoded payload is dropped.  Repaired decoder (/repo F61COMMIT): the session holds a clone of every
+              -- the decoded payload is dropped.  Repaired decoder (/repo 8f43b2a): the session holds a clone of every
               -- handle produced so far, so what was allocated while the payload was read stays alive.  Historical
               -- decoder: the payload was its only owner — those allocations die with it (their entries are dead).
               .ok (.handle tid slot p', bs, if keep then I1 else I1.drop (I1.length - I.length))
